@@ -20,13 +20,18 @@ CONSTANTS MaxLen
 
 Entries == {"AndersonCD.solve", "AndersonCD.path", "MultiTaskBCD.path", "Lasso.path", "ElasticNet.path",
             "MCPRegression.path", "WeightedLasso.path", "Lasso.refit", "ElasticNet.refit",
-            "SparseLogisticRegression.refit", "GroupLasso.refit", "SqrtLasso.path", "ProxNewton.solve",
+            "SparseLogisticRegression.refit", "LinearSVC.refit", "GroupLasso.refit", "SqrtLasso.path", "ProxNewton.solve",
             "GroupBCD.solve"}
-Alphas == 1..4                       \* index into a decreasing grid of fractions of alpha_max
+\* index into a decreasing grid of fractions of alpha_max; index 1 lies ABOVE the critical strength: its solution is
+\* the null model (zero coefficients, loss-minimising intercept) -- the usual first point of a top-down path, and
+\* a start whose support is empty while its intercept is not
+Alphas == 1..5
 WarmShapes == {"none", "zero", "random", "bigsupp", "intercept_only", "reuse"}
 Orders == {"dec", "inc", "shuffled"}
 Inits == {"none", "zero", "random", "intercept_only"}
-Changes == {"alpha_down", "alpha_up", "same", "toggle_intercept", "alpha_down_far"}
+\* new_labels / new_rows: a warm_start estimator refitted on other data starts from the previous coefficients
+Changes == {"alpha_down", "alpha_up", "same", "toggle_intercept", "alpha_down_far", "alpha_to_null", "new_labels",
+            "new_rows"}
 
 IsSolve(e) == e \in {"AndersonCD.solve", "ProxNewton.solve", "GroupBCD.solve"}
 IsPath(e) == e \in {"AndersonCD.path", "MultiTaskBCD.path", "Lasso.path", "ElasticNet.path",
@@ -51,7 +56,7 @@ Solve == /\ stage = "build" /\ IsSolve(entry) /\ Len(hist) < MaxLen
 
 \* one call of path() over a grid in some order, from some coef_init
 PathCall == /\ stage = "build" /\ IsPath(entry) /\ Len(hist) < 1
-            /\ \E o \in Orders : \E i \in Inits : \E n \in 2..4 :
+            /\ \E o \in Orders : \E i \in Inits : \E n \in 2..5 :
                  /\ (i = "intercept_only" => fi)
                  /\ hist' = Append(hist, [op |-> "path", order |-> o, init |-> i, n |-> n])
                  /\ cur' = n
@@ -63,8 +68,9 @@ Refit == /\ stage = "build" /\ IsRefit(entry) /\ Len(hist) < MaxLen
          /\ \E c \in Changes :
               /\ (hist = <<>> => c = "same")
               /\ hist' = Append(hist, [op |-> "fit", change |-> c])
-              /\ cur' = (IF c = "alpha_down" /\ cur < 4 THEN cur + 1 ELSE IF c = "alpha_up" /\ cur > 1 THEN cur - 1
-                         ELSE IF c = "alpha_down_far" THEN 4 ELSE IF cur = 0 THEN 2 ELSE cur)
+              /\ cur' = (IF c = "alpha_down" /\ cur < 5 THEN cur + 1 ELSE IF c = "alpha_up" /\ cur > 1 THEN cur - 1
+                         ELSE IF c = "alpha_down_far" THEN 5 ELSE IF c = "alpha_to_null" THEN 1
+                         ELSE IF cur = 0 THEN 2 ELSE cur)
               /\ fi' = (IF c = "toggle_intercept" THEN ~fi ELSE fi)
          /\ cons' = TRUE /\ cert' = TRUE
          /\ UNCHANGED <<entry, stage>>
